@@ -110,10 +110,13 @@ func runC09(c *Ctx) {
 	rk1, rk2 := cachedRSA()
 	mkStd("rsa", rk1, rk2, []gx509.SignatureAlgorithm{0, gx509.SHA1WithRSA, gx509.SHA256WithRSA, gx509.SHA384WithRSA, gx509.SHA512WithRSA, gx509.SHA256WithRSAPSS, gx509.SHA384WithRSAPSS, gx509.SHA512WithRSAPSS})
 	mkStd("p256", newP256Key(r), newP256Key(r), []gx509.SignatureAlgorithm{0, gx509.ECDSAWithSHA1, gx509.ECDSAWithSHA256, gx509.ECDSAWithSHA384, gx509.ECDSAWithSHA512})
-	{
-		k1, _ := ecdsa.GenerateKey(elliptic.P384(), r)
-		k2, _ := ecdsa.GenerateKey(elliptic.P384(), r)
-		mkStd("p384", k1, k2, []gx509.SignatureAlgorithm{0, gx509.ECDSAWithSHA256, gx509.ECDSAWithSHA384})
+	for _, cv := range []struct {
+		name string
+		c    elliptic.Curve
+	}{{"p384", elliptic.P384()}, {"p521", elliptic.P521()}, {"p224", elliptic.P224()}} {
+		k1, _ := ecdsa.GenerateKey(cv.c, r)
+		k2, _ := ecdsa.GenerateKey(cv.c, r)
+		mkStd(cv.name, k1, k2, []gx509.SignatureAlgorithm{0, gx509.ECDSAWithSHA256, gx509.ECDSAWithSHA384, gx509.ECDSAWithSHA512})
 	}
 
 	verifyUnder := func(s *c09Signer, iss *gx509.Certificate, alg gx509.SignatureAlgorithm, tbs, sig []byte) error {
@@ -223,11 +226,21 @@ func runC09(c *Ctx) {
 		default:
 			cls = append(cls, "bc=absent")
 		}
-		if rr.Intn(2) == 0 {
+		switch rr.Intn(6) {
+		case 0:
 			t.DNSNames = append(t.DNSNames, "a.example", "*.b.example")
 			t.EmailAddresses = []string{"x@example.org"}
 			t.IPAddresses = []net.IP{net.IPv4(10, 1, 2, 3).To4(), net.ParseIP("2001:db8::1")}
-			cls = append(cls, "san")
+			cls = append(cls, "san=all")
+		case 1:
+			t.DNSNames = append(t.DNSNames, "only-dns.example")
+			cls = append(cls, "san=dns")
+		case 2:
+			t.EmailAddresses = []string{"only@example.org"}
+			cls = append(cls, "san=email")
+		case 3:
+			t.IPAddresses = []net.IP{net.IPv4(192, 0, 2, 9).To4()}
+			cls = append(cls, "san=ip")
 		}
 		if rr.Intn(3) == 0 {
 			t.PermittedDNSDomains = []string{"example.com", ".sub.example"}
@@ -372,6 +385,9 @@ func runC09(c *Ctx) {
 			for k := 0; k < 10; k++ {
 				positions = append(positions, sigStart+rr.Intn(len(sig0)))
 			}
+			for k := 1; k <= 6 && sigStart-k >= 0; k++ {
+				positions = append(positions, sigStart-k) // unused-bits byte, BIT STRING length and tag
+			}
 		}
 		for _, p := range positions {
 			for _, x := range []byte{0x01, 0x80} {
@@ -393,6 +409,11 @@ func runC09(c *Ctx) {
 				}
 				if err == nil {
 					// accepted: only allowed when signed bytes and signature value are semantically unchanged
+					// judge "unchanged" on the harness's own reading of the mutated DER (BIT STRING right-aligned per its
+					// unused-bits count), falling back to what gmsm parsed when encoding/asn1 cannot read the object
+					if t1, s1, ok := tbsAndSig(m); ok {
+						ptbs, psig = t1, s1
+					}
 					ints1, _ := sigInts(psig)
 					same := bytes.Equal(ptbs, tbs0) && (bytes.Equal(psig, sig0) || (fam != "rsa" && ints1 == ints0 && ints0 != ""))
 					if !same {
@@ -511,11 +532,21 @@ func runC09(c *Ctx) {
 		alg := s.algs[i%len(s.algs)]
 		t := &gx509.CertificateRequest{Subject: pkix.Name{CommonName: fmt.Sprintf("csr-%d", i), Organization: []string{"Org"}}, SignatureAlgorithm: alg}
 		var tc []string
-		if i%2 == 0 {
+		switch i % 5 {
+		case 0:
 			t.DNSNames = []string{"csr.example", "*.csr.example"}
 			t.EmailAddresses = []string{"csr@example.org"}
 			t.IPAddresses = []net.IP{net.IPv4(192, 0, 2, 1).To4()}
-			tc = append(tc, "san")
+			tc = append(tc, "san=all")
+		case 1:
+			t.DNSNames = []string{"csr-dns.example"}
+			tc = append(tc, "san=dns")
+		case 2:
+			t.EmailAddresses = []string{"csr-only@example.org"}
+			tc = append(tc, "san=email")
+		case 3:
+			t.IPAddresses = []net.IP{net.IPv4(192, 0, 2, 7).To4(), net.ParseIP("2001:db8::9")}
+			tc = append(tc, "san=ip")
 		}
 		if i%3 == 0 {
 			t.ExtraExtensions = []pkix.Extension{{Id: asn1.ObjectIdentifier{1, 3, 6, 1, 4, 1, 99999, 8}, Value: []byte{5, 0}}}
@@ -550,8 +581,17 @@ func runC09(c *Ctx) {
 		if p.Subject.CommonName != t.Subject.CommonName || !reflect.DeepEqual(p.Subject.Country, t.Subject.Country) || !reflect.DeepEqual(p.Subject.Organization, t.Subject.Organization) {
 			rep.Violation("C09/CreateCertificateRequest/field-mismatch/Subject", fmt.Sprintf("%v", p.Subject), w)
 		}
-		if !(len(p.DNSNames) == 0 && len(t.DNSNames) == 0) && (!reflect.DeepEqual(p.DNSNames, t.DNSNames) || !reflect.DeepEqual(p.EmailAddresses, t.EmailAddresses) || len(p.IPAddresses) != 1 || !p.IPAddresses[0].Equal(t.IPAddresses[0])) {
-			rep.Violation("C09/CreateCertificateRequest/field-mismatch/SAN", "", w)
+		sanOK := (len(p.DNSNames) == 0 && len(t.DNSNames) == 0 || reflect.DeepEqual(p.DNSNames, t.DNSNames)) &&
+			(len(p.EmailAddresses) == 0 && len(t.EmailAddresses) == 0 || reflect.DeepEqual(p.EmailAddresses, t.EmailAddresses)) && len(p.IPAddresses) == len(t.IPAddresses)
+		if sanOK {
+			for k := range t.IPAddresses {
+				if !p.IPAddresses[k].Equal(t.IPAddresses[k]) {
+					sanOK = false
+				}
+			}
+		}
+		if !sanOK {
+			rep.Violation("C09/CreateCertificateRequest/field-mismatch/SAN", fmt.Sprintf("dns %v email %v ip %v, template dns %v email %v ip %v", p.DNSNames, p.EmailAddresses, p.IPAddresses, t.DNSNames, t.EmailAddresses, t.IPAddresses), w)
 		}
 		for _, e := range t.ExtraExtensions {
 			found := false
